@@ -224,7 +224,7 @@ def expected(tab, z, io, vi):
     return ("range", min(vals), max(vals), "cell")
 
 
-def queries(rng, tab, n):
+def queries(rng, tab, n, z="eff", kind=""):
     ios, vis = tab["io"], tab["vi"]
 
     def pick(ax):
@@ -262,6 +262,13 @@ def queries(rng, tab, n):
             io = min(x for x in ios if x > 0) * 0.5 if len(ios) > 1 else 1e-3  # the probe needs a load current
             a = "out" if io < ios[0] else "in"
         out.append((io, vi, a, b))
+    if z in ("ig", "vdrop") and not (kind == "Rectifier" and z == "ig"):
+        # (a MOSFET Rectifier is documented to draw its separate no-load parameter iq at io = 0, not the ig table)
+        # an UNLOADED element (zero output current: a leaf, or a load that draws nothing) still looks its parameter up,
+        # at io = 0 (clamped to the first column unless the axis starts at 0) and at the voltage it really sees
+        for _ in range(3):
+            vi, b = pick(vis)
+            out.insert(rng.randrange(len(out) + 1), (0.0, vi, "on" if ios[0] == 0 else "out", b))
     return out
 
 
@@ -284,7 +291,7 @@ def run(ctx, case):
     st, comp = H.call(S.make_comp, ns, _c("X", kind, probe_spec(kind, z, raw_tab, 5.0, 1.0)["comps"][1]["args"], ["S"]))
     if st != "ok":
         raise RuntimeError("well-conditioned table rejected: %s" % H.exc_sig(comp))
-    qs = queries(rng, tab, case["nq"])
+    qs = queries(rng, tab, case["nq"], z, kind)
     qs = [(q_[0], q_[1], "out", "out") for q_ in case.get("extra_queries", [])] + qs
     if case.get("one_object", True) and case.get("plot_first"):
         # the table is PLOTTED (System.plot_interp) before the component has ever been looked up
@@ -307,6 +314,12 @@ def run(ctx, case):
         neg = rng.random() < 0.3
         V = -vi if neg else vi
         spec = probe_spec(kind, z, raw_tab, V, io)
+        leaf = io == 0 and rng.random() < 0.5
+        if leaf:
+            spec["comps"] = spec["comps"][:2]  # nothing connected to the element at all
+            ctx.count("probe", "element is a leaf (no load connected)")
+        elif io == 0:
+            ctx.count("probe", "load draws 0 A")
         if case.get("one_object", True) or (kind == "PMux" and case.get("mux_fallback")):
             # ONE tabulated component object serves every probe system of the case (a part definition re-used across
             # what-if systems): a lookup must not depend on the lookups made before it
@@ -320,7 +333,8 @@ def run(ctx, case):
                 else:
                     so_ = ns.System("probe", ns.KINDS["Source"]("S", vo=V))
                     so_.add_comp("S", comp=comp)
-                so_.add_comp("X", comp=ns.KINDS["ILoad"]("L", ii=io))
+                if not leaf:
+                    so_.add_comp("X", comp=ns.KINDS["ILoad"]("L", ii=io))
                 return so_
 
             st, sysobj = H.call(_mk)
